@@ -384,6 +384,8 @@ pub enum Dst {
     White,
     Distinct,
     Pixels(Vec<u32>),
+    /// the same pixels, the target made by DrawTarget::from_backing instead of from_vec
+    Backing(Box<Dst>),
 }
 
 /// a valid premultiplied value per index, all different; includes a=0, a=1, a=0x80, a=0xfe, a=0xff, c=a, c=0, c=a/2
@@ -403,6 +405,7 @@ impl Dst {
                 v.resize(n, 0);
                 v
             }
+            Dst::Backing(d) => d.pixels(w, h),
         }
     }
 }
@@ -417,7 +420,10 @@ pub struct Scene {
 
 impl Scene {
     pub fn target(&self) -> DrawTarget {
-        DrawTarget::from_vec(self.w, self.h, self.dst.pixels(self.w, self.h))
+        match &self.dst {
+            Dst::Backing(_) => DrawTarget::from_backing(self.w, self.h, self.dst.pixels(self.w, self.h)),
+            _ => DrawTarget::from_vec(self.w, self.h, self.dst.pixels(self.w, self.h)),
+        }
     }
 }
 
@@ -526,6 +532,7 @@ impl fmt::Display for Dst {
             Dst::White => write!(f, "white"),
             Dst::Distinct => write!(f, "distinct"),
             Dst::Pixels(p) => write!(f, "px({})", hexl(p)),
+            Dst::Backing(d) => write!(f, "backing:{}", d),
         }
     }
 }
@@ -769,6 +776,9 @@ pub fn parse_op(s: &str) -> Result<Op, String> {
 }
 
 pub fn parse_dst(s: &str) -> Result<Dst, String> {
+    if let Some(rest) = s.strip_prefix("backing:") {
+        return Ok(Dst::Backing(Box::new(parse_dst(rest)?)));
+    }
     match s {
         "zero" => Ok(Dst::Zero),
         "white" => Ok(Dst::White),
